@@ -489,17 +489,26 @@ def run_impl(case: dict) -> dict:
     fifo_root.mkdir(parents=True)
     pidfile, clog, plog = scratch / "child.pid", scratch / "child.log", scratch / "parent.log"
     saved_env = {k: os.environ.get(k) for k in
-                 ("PATH", "VERIF_C20_SRC", "VERIF_C20_PIDFILE", "VERIF_C20_LOG", "VERIF_C20_FAULT", "VERIF_C20_STDERR")}
+                 ("PATH", "VERIF_C20_SRC", "VERIF_C20_PIDFILE", "VERIF_C20_LOG", "VERIF_C20_FAULT", "VERIF_C20_STDERR",
+                  "VERIF_C20_SCHED")}
     saved_tmp = tempfile.tempdir
     orig_read, orig_write = ext._JSONPipeCommunicator.read, ext._JSONPipeCommunicator.write
     plog_fd = os.open(plog, os.O_WRONLY | os.O_CREAT | os.O_APPEND, 0o600)
 
     nread = [0]
     wfault = {"fired": False, "dead": False}
+    # pipe schedule: [a, b, c, d] -- parent: after every request read the next a reads find nothing, the first b
+    # attempts to write each answer find the FIFO not writable; child (through the wrapper): the same with c, d
+    sched = [int(v) for v in (case.get("sched") or [0, 0, 0, 0])]
+    skip = {"read": sched[0], "write": sched[1]}
 
     def p_read(self):
+        if skip["read"] > 0:
+            skip["read"] -= 1
+            return None
         data = orig_read(self)
         if data is not None:
+            skip["read"] = sched[0]
             os.write(plog_fd, (json.dumps({"r": bitify(data)}) + "\n").encode())
             nread[0] += 1
             if fault[0] == "wkill" and nread[0] == int(fault[1]) and not wfault["fired"]:
@@ -511,8 +520,13 @@ def run_impl(case: dict) -> dict:
         return data
 
     def p_write(self, data):
+        if skip["write"] > 0 and not wfault["fired"]:
+            # (a FIFO whose reader is gone is never "not writable": the write fails at once -- no skip after a wkill)
+            skip["write"] -= 1
+            return False
         ok = orig_write(self, data)
         if ok:
+            skip["write"] = sched[1]
             os.write(plog_fd, (json.dumps({"w": bitify(json.loads(json.dumps(data, cls=_np_encoder())))}) + "\n").encode())
         return ok
 
@@ -523,6 +537,7 @@ def run_impl(case: dict) -> dict:
         os.environ["VERIF_C20_SRC"] = str(REPO / "src")
         os.environ["VERIF_C20_PIDFILE"] = str(pidfile)
         os.environ["VERIF_C20_LOG"] = str(clog)
+        os.environ["VERIF_C20_SCHED"] = f"{sched[2]}:{sched[3]}"
         if fault[0] != "none":
             os.environ["VERIF_C20_STDERR"] = str(scratch / "child.err")
         else:
@@ -843,6 +858,7 @@ def features(case: dict, obs: dict) -> dict:
         "eval_raise_at": case.get("eval_raise_at") is not None,
         "eval_raise_kind": case.get("eval_raise_kind", "exception") if case.get("eval_raise_at") is not None else "-",
         "qualified_name": bool(case.get("qualified")),
+        "pipe_schedule": "-" if not case.get("sched") else "".join(str(min(int(v), 9)) for v in case["sched"]),
         "one_sided_bounds": any(v is None for key in ("lower", "upper") for v in (case.get(key) or [])),
         "parallel": bool(case.get("parallel")),
     }
@@ -1011,6 +1027,14 @@ def gen_cases(tier, rng):
         pairs = pairs * 2 + [(rng.choice(METHODS), rng.choice(flavours)) for _ in range(60)]
     for m, f in pairs:
         yield rand_base(rng, m, f)
+    # (a') schedules: the same kinds of run with pipes that are not ready when first tried (parent and child side):
+    #      unread requests, answers whose write has to be retried -- results must not depend on it
+    for i in range(3 if quick else 24):
+        c = rand_base(rng, METHODS[i % 3], ["plain", "abort", "evraise", "opterr", "nan", "plain"][i % 6])
+        c["sched"] = [[1, 2, 0, 0], [0, 1, 2, 3], [2, 0, 1, 1], [1, 1, 1, 1], [0, 3, 0, 2], [3, 1, 2, 0]][i % 6]
+        if c["method"] != "nelder-mead":
+            c["max_functions"] = min(int(c.get("max_functions") or 3), 3)
+        yield c
     if BIG_MESSAGES:
         yield big_base(rng)
     # (b) crash points on plain and on faulty runs: the child dies by a signal (SIGTERM, SIGKILL, SIGINT, SIGHUP,
